@@ -5,6 +5,7 @@
 package responder
 
 import (
+	"encoding/base64"
 	"fmt"
 	"strings"
 	"sync"
@@ -246,6 +247,9 @@ func (r *Responder) handle(t lexer.Token) {
 			}
 		case t.S == "52;c;?":
 			r.Queries = append(r.Queries, "osc52")
+			if r.Clipboard != "" {
+				r.send("\x1b]52;c;" + base64.StdEncoding.EncodeToString([]byte(r.Clipboard)) + "\x1b\\")
+			}
 		}
 	case lexer.DCS:
 		switch {
